@@ -15,6 +15,7 @@ import (
 	"github.com/cuteLittleDevil/go-jt808/protocol/model"
 	"github.com/cuteLittleDevil/go-jt808/protocol/utils"
 	"github.com/cuteLittleDevil/go-jt808/shared/consts"
+	"golang.org/x/text/encoding/simplifiedchinese"
 )
 
 type lField struct {
@@ -531,9 +532,40 @@ func init() {
 			// GBK <-> UTF-8 on encodable text (ASCII and a fixed set of CJK characters)
 			u := randCJK(r)
 			g := utils.UTF82GBK([]byte(u))
-			out.put(map[string]any{"ev": "gbk", "utf8": B(u), "gbk": B(g), "back": B(utils.GBK2UTF8(g))})
+			out.put(map[string]any{"ev": "gbk", "utf8": B(u), "gbk": B(g), "back": B(utils.GBK2UTF8(g)), "ref": B(gbkRef(u))})
+		}
+		// every GBK-encodable character of the basic plane (stride > 1: a sample that always contains the
+		// single-byte and range-boundary characters), alone and next to ASCII / CJK neighbours
+		stride, off := 1, 0
+		if len(a) > 2 {
+			stride, off = atoi(a[2]), atoi(a[3])%atoi(a[2])
+		}
+		special := map[rune]bool{0x20AC: true, 0xA4: true, 0xB7: true, 0x4E00: true, 0x9FA5: true, 0x3000: true, 0xFFE5: true, 0xE5E5: true, 0xF92C: true}
+		for c := rune(0x80); c <= 0xFFFF; c++ {
+			if c >= 0xD800 && c <= 0xDFFF || (int(c)%stride != off && !special[c]) {
+				continue
+			}
+			if gbkRef(string(c)) == nil {
+				continue // not in the domain: no GBK code
+			}
+			for _, u := range []string{string(c), "5" + string(c), string(c) + "A1", string(c) + "京" + string(c)} {
+				g := utils.UTF82GBK([]byte(u))
+				out.put(map[string]any{"ev": "gbk", "utf8": B(u), "gbk": B(g), "back": B(utils.GBK2UTF8(g)), "ref": B(gbkRef(u))})
+			}
 		}
 	}
+}
+
+// gbkRef: the GBK code of a text by the reference tables (golang.org/x/text, strict: nil when a character has none)
+func gbkRef(u string) []byte {
+	b, err := simplifiedchinese.GBK.NewEncoder().Bytes([]byte(u))
+	if err != nil {
+		return nil
+	}
+	if b == nil {
+		b = []byte{}
+	}
+	return b
 }
 
 func randAscii(r *rand.Rand, n int) []byte {
